@@ -25,7 +25,7 @@ import string
 
 from ..axis import Axis, Val, MIXED, AxisError
 from ..lib import (evaluator, Decider, econd_summary, rec_fields, show, walk, strip_casts, is_ext_call,
-                   fn_name, method_name, path_str, ext_name, leaves, kwarg)
+                   fn_name, method_name, path_str, ext_name, leaves, kwarg, axes_all_but)
 from ..spec import spec_term, Comparer
 from ..terms import T, sym, const, is_const, cval, NONE
 from ..model import AnalysisError
@@ -126,11 +126,10 @@ def tearfree_axis(ctx):
       axes = kwarg(new, 'axes')
       okt = axes is not None and axes.op in ('tuple', 'list') and len(axes.args) == 2 and axes.args[0] is axes.args[1]
       if okt:
-        a0 = axes.args[0]
-        # all axes of the block but the statistic's own index: list(range(ndim)) with exactly that index removed
-        okt = a0.op == 'mut' and a0.args[1] == 'remove' and len(a0.args[2]) == 1 and a0.args[2][0].op == 'index' and \
-            path_str(a0.args[2][0].args[0]) == 'block.stats' and \
-            cmpr_same_range(ev, a0.args[0])
+        nd_ = spec_term(ev, 'len(meta.param_shape)', {'meta': sym('param', fstats.short, 'meta')})
+        own = axes_all_but(ev, Comparer(), axes.args[0], nd_)
+        # the axis left out must be the position of this statistic in block.stats
+        okt = own is not None and own.op == 'index' and path_str(own.args[0]) == 'block.stats'
     ctx.ob('C08.R1', fstats.short, 'contraction over all axes but the statistic\'s own', okt,
            f'inside the vmap the gradient block must be contracted with itself over all axes except `axis`; got `{show(kwarg(new, "axes") or NONE, maxdepth=5)[:200]}`', ctx.loc(fstats),
            sample='tensordot(axes=(all_axes, all_axes)), all_axes.remove(axis)')
